@@ -1,7 +1,10 @@
 (** C13 -- One live websocket per client id; lifecycle callbacks exactly once. *)
 From Coq Require Import List Bool ZArith.
 Import ListNotations.
-From Verif Require Import Base.Prelude M1.Containers M3.Registry M3.RegistryProofs.
+From Verif Require Import Base.Prelude M1.Containers M3.Registry M3.RegistryProofs M4.Sections M4.SectionsCheck Spec.Concurrency.
+From VerifGen Require Import AccessTable.
+From Coq Require Import String.
+Local Open Scope string_scope.
 
 (** every sequence of events: at most one live connection per client id *)
 Theorem C13_one_live_connection_per_id : forall ls id c1 c2, let s := rrun ls reg0 in
@@ -34,3 +37,15 @@ Theorem C13_write_iff_registered : forall s id,
   live (rstep (RSend id) s) = live s.
 Proof. exact write_iff_registered. Qed.
 Print Assumptions C13_write_iff_registered.
+
+(** On the table regenerated from the source on every run: in ws.server.wsHandler the look-up of the id (the duplicate
+    check) and its registration are accesses of ONE critical section of the server's connection lock, held exclusively
+    -- which is what allows the registry model above to take "connect" as one atomic step. *)
+Theorem C13_duplicate_check_and_registration_atomic :
+  exists a, a <> 0%Z /\
+    (forall r, In r (sec_rows section_table "ws.server.wsHandler" "ws.server.connections") -> in_section "ws.server.connMutex" a r = true) /\
+    (exists r, In r (sec_rows section_table "ws.server.wsHandler" "ws.server.connections") /\ is_read (kind_of r) = true) /\
+    (exists r, In r (sec_rows section_table "ws.server.wsHandler" "ws.server.connections") /\ is_write (kind_of r) = true) /\
+    unguarded access_table "ws.server.wsHandler" "ws.server.connections" "ws.server.connMutex" = [].
+Proof. apply atomic_sections_meaning. vm_compute. left. reflexivity. Qed.
+Print Assumptions C13_duplicate_check_and_registration_atomic.
